@@ -176,11 +176,15 @@ class PostgreSQLQueryBuilder(QueryBuilder):
 
             querystring += self._set_sql(ctx)
 
+            from_ = list(self._from)
             if self._joins:
-                self._from.append(self._update_table.as_(self._update_table.get_table_name() + "_"))
+                from_.append(self._update_table.as_(self._update_table.get_table_name() + "_"))
 
-            if self._from:
-                querystring += self._from_sql(ctx)
+            if from_:
+                from_ctx = ctx.copy(subquery=True, with_alias=True)
+                querystring += " FROM {selectable}".format(
+                    selectable=",".join(clause.get_sql(from_ctx) for clause in from_)
+                )
             if self._joins:
                 querystring += " " + " ".join(join.get_sql(ctx) for join in self._joins)
 
